@@ -773,6 +773,9 @@ const (
 // farTTL rewrites small positive time-to-live arguments into far-future ones, so
 // that no verdict of the sequential families depends on the clock (C06 owns
 // the behaviour around deadlines).
+// DeadStep is the name of the pseudo-step "this key's deadline has passed, nothing has looked at it since".
+const DeadStep = "@dead"
+
 func farTTL(cmd Cmd) Cmd {
 	if len(cmd) == 0 {
 		return cmd
@@ -876,6 +879,11 @@ func Program(r *rand.Rand, family string, maxSteps int) []Cmd {
 		fam := family
 		if family == FMixed && r.Intn(16) == 0 {
 			prog = append(prog, g.errorEcho())
+			continue
+		}
+		if family != FCluster && len(g.Keys) > 0 && r.Intn(24) == 0 {
+			// not a command: the runner puts the key, if it exists, past its deadline without reaping it
+			prog = append(prog, Cmd{[]byte(DeadStep), []byte(g.Keys[r.Intn(len(g.Keys))])})
 			continue
 		}
 		if (family == FCluster || family == FString || family == FMixed) && r.Intn(20) == 0 {
